@@ -187,7 +187,11 @@ PROPS = {
                        "parameters under contract): whatever the composing closure appended and whichever of the three failures "
                        "occurs (target full, push limit reached, count overflow), an Err leaves the target octets -- header counts "
                        "included -- exactly as they were; an Ok leaves the message strictly below the push limit with everything "
-                       "outside the counters extended only by what was appended. Kani: HeaderCounts increments complete over all headers; StreamTarget prefix and "
+                       "outside the counters extended only by what was appended. The public entry points QuestionBuilder::push, "
+                       "AnswerBuilder::push, AuthorityBuilder::push and AdditionalBuilder::push (real text, closures annotated in place) "
+                       "are checked against that contract: the closures they pass only append / leave the counts alone on overflow, so "
+                       "each of them is all-or-nothing for every question or record type; OptBuilder::push_raw_option rolls back a "
+                       "failed option. Kani: HeaderCounts increments complete over all headers; StreamTarget prefix and "
                        "all-or-nothing push are bounded harnesses (bounds stated). Native replay of D4 for all three compressors.",
         "not_covered": "The sequence-level round trip (arbitrary pushes parse back to the same items) is not under contract: a CBMC "
                        "harness for it does not terminate, MessageBuilder::push takes FnOnce(&mut Target) closures (outside Verus), "
@@ -197,6 +201,7 @@ PROPS = {
         "assumptions": [
             "octseq Truncate is modelled by a prelude trait (truncate keeps the first len octets)",
             "MessageBuilder::push: the composing closure only appends to the target; the counting closure leaves the counts unchanged when it fails (HeaderCounts::inc_*: Kani c02_header_counts_inc_total); counts_mut() is the octets 4..12 window of the target (pointer cast, CBMC-checked)",
+            "ComposeQuestion::compose_question / ComposeRecord::compose_record (trait contracts for every implementor): composing only appends to the target",
         ],
     },
     "C04": {
